@@ -23,7 +23,10 @@ if [ ! -d "$B/src" ]; then
   echo "$VER" > "$B.tmp$$/gen/VERSION"
   mv "$B.tmp$$" "$B" 2>/dev/null || rm -rf "$B.tmp$$"
   # prune old builds, keep the 7 most recent
-  ls -1dt "$BROOT"/*/ 2>/dev/null | tail -n +8 | xargs -r rm -rf
+  # (never one that was used within the last two hours: another check may be running from it)
+  ls -1dt "$BROOT"/*/ 2>/dev/null | tail -n +8 | while read -r old; do
+    if [ -n "$(find "$old" -maxdepth 0 -mmin +120 2>/dev/null)" ]; then rm -rf "$old"; fi
+  done
 fi
 touch "$B"
 VER=$(cat "$B/gen/VERSION")
